@@ -504,11 +504,22 @@ TWrap ==
     /\ viol' = viol \cup V(~E.panic /\ E.last_created /\ E.committed = E.last_hdr /\ E.listed_last /\ E.watched_last, "ResolvedAfterWrap")
     /\ UNCHANGED <<idx, ver, hv, floor, cm, base, pend, maxRet, seen, maxRev, evlog, ws, rds, prefixes, cmax, expiring, chg, ttl>>
 
+\* C05 at the real batch size: the sequencer was held while several hundred writes completed, so that it hands out full
+\* batches of 300 (KubeBrain.tla: EventBatch), and a late watcher catches up on more cached events than its result channel
+\* takes in batches of 300. Every watcher got the matching successful writes once, in order, with the right content -- all
+\* of them, or (its stream closed) a prefix of them
+TWBulk ==
+    /\ Is("WatchBulk") /\ Adv
+    /\ viol' = viol \cup V(E.setup_ok => (/\ E.dups = 0 /\ E.disorder = 0 /\ E.wrong = 0 /\ E.holes = 0
+                                            /\ (E.closed \/ E.missing = 0)),
+                             "WatchBulkExactlyOnce")
+    /\ UNCHANGED <<idx, ver, hv, floor, cm, base, pend, maxRet, seen, maxRev, evlog, ws, rds, prefixes, cmax, expiring, chg, ttl>>
+
 TSkip ==
     /\ l <= Len(Trace) /\ E.e \in Skippable /\ Adv
     /\ UNCHANGED <<idx, ver, hv, floor, cm, base, pend, maxRet, seen, maxRev, evlog, ws, rds, prefixes, cmax, expiring, chg, ttl, viol>>
 
-TNext == TReset \/ TPanic \/ TParts \/ TBulk \/ TWrap \/ TInitEv \/ TInvoke \/ TCommit \/ TNotify \/ TCommitted \/ TReturn
+TNext == TReset \/ TPanic \/ TParts \/ TBulk \/ TWBulk \/ TWrap \/ TInitEv \/ TInvoke \/ TCommit \/ TNotify \/ TCommitted \/ TReturn
          \/ TWatchInvoke \/ TWatchReturn \/ TRecv \/ TClosed \/ TQuiesce \/ TSkip
          \/ TRInvoke \/ TRReturn \/ TCInvoke \/ TCReturn \/ TDel \/ TExpect
 
@@ -540,6 +551,7 @@ M_NoPanic               == NoViol("NoPanic")
 M_ResolvedAfterWrap     == NoViol("ResolvedAfterWrap")
 M_FailedReturnsCurrent  == NoViol("FailedReturnsCurrent")
 M_BulkStreamExactlyOnce == NoViol("BulkStreamExactlyOnce")
+M_WatchBulkExactlyOnce  == NoViol("WatchBulkExactlyOnce")
 M_PartitionsTileInterval == NoViol("PartitionsTileInterval")
 M_ReadStable            == NoViol("ReadStable")
 M_RealTimeOrder         == NoViol("RealTimeOrder")
